@@ -409,6 +409,8 @@ func packetString(p *packet.Packet) string {
 		d = fmt.Sprintf("reader(%d)", x.Len())
 	case *bytes.Buffer:
 		d = "b:" + string(x.Bytes())
+	case *slowReader:
+		d = "b:" + string(x.data)
 	default:
 		d = fmt.Sprintf("%T", x)
 	}
